@@ -128,4 +128,14 @@ theorem C15_const_sound (P : Pair) (f : PubField) (v : Nat) (params : Nat → Na
   simp only [agreesField, hsrc] at h
   exact constValue_eq P f v params h
 
+
+/-! Repeated / conditional records: on EVERY fully translated path of every setter of PGN 129029 (main function and alias
+wrapper, with and without reference station) the payload length is the fixed part plus one 4-byte record per counted
+station, for every value of the count that path can be taken with - in particular a count of exactly 1 is followed by
+its record. -/
+theorem C15_record_counts : N2k.Gen.Layouts.all.all repeatsOK = true := by decide +kernel
+example : 4 ≤ (N2k.Gen.Layouts.all.filter fun P => P.pgn == 129029 && !P.setterPrefixOnly && P.setterOK).length := by decide +kernel
+/-- a path that is taken with count 1 but writes no record does not pass (the check is not vacuous) -/
+example : recordCountOK { pair_129029_b with setCond := .not (.and (.ne 12 255) (.gt 12 1)) } 336 43 4 = false := by decide +kernel
+
 end N2k.C15
